@@ -1592,8 +1592,12 @@ class Memoer(Tymee):
 
         try:
             mid, vid, gn, gc = self.pick(gram)  # parse and strip off head leaving body
-        except hioing.MemoerError as ex: # invalid gram so drop
+        except (hioing.MemoerError, KeyError, IndexError, ValueError) as ex:
+            # invalid gram so drop
             # may be bad signature when signed or unrecognized header format
+            # a malformed head may also raise KeyError (unknown code, non
+            # Base64 char), IndexError, ValueError (bad Base64 padding,
+            # undecodable text)
             logger.error("Invalid Memoer gram from %s.\n %s.", src, ex)
             return True  # did receive data so can try again now
 
@@ -1663,6 +1667,9 @@ class Memoer(Tymee):
         if len(grams) < cnt:  # must be missing one or more grams
             return None
 
+        if any(i not in grams for i in range(cnt)):  # gram numbers beyond count
+            return None  # still missing one or more of grams 0 to cnt - 1
+
         memo = bytearray()
         for i in range(cnt):  # iterate in numeric order, items are insertion ordered
             memo.extend(grams[i])  # extend memo with gram body part at gram i
@@ -1682,7 +1689,16 @@ class Memoer(Tymee):
             # if mid then grams dict at mid must not be empty
             if not mid in self.counts:  # missing first gram so skip
                 continue
-            memo = self.fuse(self.rxgs[mid], self.counts[mid])
+            try:
+                memo = self.fuse(self.rxgs[mid], self.counts[mid])
+            except ValueError as ex:  # complete but body not decodable so drop
+                logger.error("Invalid Memoer memo from %s.\n %s.",
+                             self.sources[mid], ex)
+                del self.rxgs[mid]
+                del self.counts[mid]
+                del self.sources[mid]
+                del self.vids[mid]
+                continue
             if memo is not None:  # allows for empty "" memo for some src
                 self.rxms.append((memo, self.sources[mid], self.vids[mid]))
                 del self.rxgs[mid]
